@@ -10,6 +10,19 @@ NOTE = ("Trusted: Lean 4.33 kernel; axioms propext/Classical.choice/Quot.sound o
         "tolerances; CPython/numpy/pint/scipy. Modelled rather than verified: the Python code itself.")
 
 CHECKS = {
+    "C13": {
+        "engine": "sched",
+        "text": ("Lean theorems: dfix_request (= max(t-d, start)), dpull_request (request-table invariant by induction over "
+                 "the request history: the table holds the last n of start::requests, its head is the n-th previous "
+                 "request; forwarded time = min(t, max(nthPrev - extra, start))), dpush_request (= min(t, newest)), "
+                 "dfix_compose / chain_delays_add (delays of chained adapters add up, also across pass-through adapters), "
+                 "sched_assumed_eq_actual (walk = reach on delay chains). Tied to adapters/time.py, sdk/adapter.py and "
+                 "schedule.py by a link-level correspondence (time reaching Output.get_data, publication served) and a "
+                 "driver-level correspondence/oracle (src(1h) >> chain >> cons: the driver waits for exactly the shifted time); "
+                 "oracle = the adapters' documented definitions composed in Python."),
+        "design_ref": "5/C13",
+        "technique": "Lean 4 proof (invariant over request histories; induction over adapter chains) + model/implementation correspondence",
+    },
     "C01": {
         "engine": "sched",
         "text": ("Lean theorems over the scheduler model: walk_eq_need (the time checked by _find_dependencies equals the "
